@@ -70,9 +70,9 @@ Drain(a, b, nf, nb) ==
 (* The range argument of drain / get / get_mut is any RangeBounds / SliceIndex form; kind k:
    0: a..b   1: a..=b   2: ..b   3: ..=b   4: a..   5: ..
    It denotes the half-open interval [RStart, REnd) of the standard library (slice::range / SliceIndex). *)
-RangeKinds == 0..5
-RStart(k, a) == IF k \in {2, 3, 5} THEN 0 ELSE a
-REnd(k, b) == IF k \in {0, 2} THEN b ELSE IF k \in {1, 3} THEN b + 1 ELSE Len(vec)
+RangeKinds == 0..7      \* 6: (Excluded(a), Included(b))   7: (Excluded(a), Excluded(b)) - pairs of bounds
+RStart(k, a) == IF k \in {2, 3, 5} THEN 0 ELSE IF k \in {6, 7} THEN a + 1 ELSE a
+REnd(k, b) == IF k \in {0, 2, 7} THEN b ELSE IF k \in {1, 3, 6} THEN b + 1 ELSE Len(vec)
 DrainK(k, a, b, nf, nb) == Drain(RStart(k, a), REnd(k, b), nf, nb)
 
 (* get(i) / get(a..b): None unless the lookup succeeds *)
